@@ -129,6 +129,13 @@ func (sc *specCtx) eval(e Expr) Val {
 		if v, ok := sc.lookup(e.Name); ok {
 			return v
 		}
+		if sc.useNames {
+			if alt, ok := sc.fc.renamed(e.Name); ok {
+				if v, ok := sc.lookup(alt); ok {
+					return v
+				}
+			}
+		}
 		specFail("unresolved identifier %q", e.Name)
 	case *Unary:
 		x := sc.eval(e.X)
